@@ -74,6 +74,19 @@ partial def loop (h : IO.FS.Stream) (c : Case) (st : Stats) : IO Stats := do
     let st := flags.foldl (fun s f => { s with hist := bump s.hist (f.dropEnd 2).toString }) st
     loop h { c with decos := c.decos ++ [(i.toNat!, " ".intercalate rest)] } { st with twins := st.twins + 1, ops := st.ops + 2 }
   | "terr" :: _ => loop h c { st with twinErr := st.twinErr + 1 }
+  | "dif" :: i :: verdict :: u :: d :: _ =>
+    -- the export half, interface level: the exported top entity of the decorated twin has the data ports of the undecorated one
+    let deco := (c.decos.lookup i.toNat!).getD ""
+    let uu := (u.drop 2).toString; let dd := (d.drop 2).toString
+    let st := { st with ops := st.ops + 1, hist := bump st.hist "exported-twin" }
+    if verdict == "same" then loop h c st
+    else if dd.startsWith "export-threw:" && !uu.startsWith "export-threw:" then
+      IO.println s!"PROPFAIL case={c.id} what=export-decorated-throws reason={(dd.drop 13).toString.take 70} twin={i} deco=[{deco}]"
+      loop h c { st with propfails := st.propfails + 1 }
+    else if uu.startsWith "export-threw:" then loop h c { st with hist := bump st.hist "export-of-undecorated-twin-throws" }
+    else
+      IO.println s!"PROPFAIL case={c.id} what=export-interface twin={i} undecorated=[{uu}] decorated=[{dd}] deco=[{deco}]"
+      loop h c { st with propfails := st.propfails + 1 }
   | "dpre" :: i :: _ :: row => loop h { c with dpre := addRow c.dpre i.toNat! (row.map String.toList) } st
   | "dpost" :: i :: _ :: row => loop h { c with dpost := addRow c.dpost i.toNat! (row.map String.toList) } st
   | ["end"] =>
